@@ -30,6 +30,36 @@ CHECKS = {
             "equal string; for well-formed locales the id must equal the LanguageIdentifier parsed from the prefix before the first "
             "singleton; From/Into/AsRef conversions are checked on every accepted Locale. No external oracle.",
             "DESIGN.md section 5, C13", TRUST),
+    "C04": ("output monitor: independent canonicaliser over the observed getters + strict recogniser, on parsed and manufactured values",
+            "Every value reached by parsing the shared stream, by random mutation histories (every intermediate value), by from_parts and by field "
+            "assignment is serialised; the string must use only [A-Za-z0-9-], have no empty subtag, equal the independent canonicaliser applied to "
+            "what the getters return, and be a fixed point of the independent recogniser+canonicaliser (case per position, sorted unique variants and "
+            "attributes, t-u-x order, key-sorted maps, no 'true', nothing for an empty extension). canonicalize(s) must equal parse(s).to_string() and "
+            "not be longer than s.",
+            "DESIGN.md section 5, C04", TRUST),
+    "C05": ("round-trip monitor using the library's own equality, on parsed and manufactured values",
+            "For every reachable value of the seven types (as in C04) parse(x.to_string()) must succeed and == x; canonicalize must be idempotent. "
+            "Values that the parser would never produce directly (tfields together with -u-/-x-, tlang set from any id, valueless keys) are "
+            "manufactured by mutation histories and from_parts.",
+            "DESIGN.md section 5, C05", TRUST),
+    "C09": ("metamorphic monitor: (input, transformed input) pairs, no reference implementation",
+            "Case masks and '-'/'_' masks are applied to every input of the shared stream (so ill-formed inputs must stay rejected), and "
+            "structure-aware transformations (permute/duplicate variants and attributes, permute keywords and tfields with distinct keys, swap the "
+            "u and t blocks) to random well-formed locales, a third of them with the same fault injected into both members. Both parse results must "
+            "fail together or be == with identical to_string().",
+            "DESIGN.md section 5, C09", TRUST),
+    "C10": ("lock-step reference-model monitor over operation histories (exhaustive short, random long)",
+            "Every public mutator/getter call of a history is mirrored on a model made of sorted sets, a sorted multiset and ordered maps. After "
+            "every step: return value, error => value unchanged, every getter, is_empty, has_*, iterator lengths, to_string, re-parse and "
+            "single-representation are compared. Exhaustive over all histories of length <= 3 (quick) / 4 (thorough) on a 64-operation alphabet "
+            "from 21 start values; random histories of 30-300 operations with valid, boundary and invalid arguments.",
+            "DESIGN.md section 5, C10", TRUST),
+    "C15": ("reference-model monitor (byte-level production predicates) over exhaustive short and boundary-class byte strings",
+            "All 16.8 million byte strings of length 0-3, all strings of length 4-6 (quick) / 4-7 (thorough) over 19 boundary bytes, length 8-9 over "
+            "8 bytes, every single-byte substitution of 28 valid subtags and random strings are given to Language/Script/Region/Variant "
+            "from_bytes, from_str (and Language::try_from); accept/reject must equal the production, and as_str, Display, == &str, "
+            "<&str>::from and is_empty must expose the expected case-folded text; 'und' handling through default(), clear(), try_from(None).",
+            "DESIGN.md section 5, C15", TRUST),
 }
 
 REASON_PENDING = "check not built yet in this round; design in DESIGN.md section 5"
